@@ -38,6 +38,20 @@ Two further families (round 4):
     refusal plan, recorders) runs at the same time; the tape picks before every network event which pair moves, so FileSender
     reads, deliveries and replies of the two alternate and their DATA transfers overlap.  Both sessions are judged by the same
     oracle: one connection's transfer must not depend on what another connection is doing.
+
+Two further families (round 5):
+  * who pulls first: per session (p=0.5) the client's transport asks a pull producer for its first chunk synchronously from
+    inside registerProducer() - what abstract.FileDescriptor (every real TCP/TLS transport) and twisted.protocols.loopback do -
+    instead of leaving every pull to the scheduler (what in-memory test transports do).  The first piece of the body is then
+    read and transformed while the client is still inside the function that started the transfer (detsim.net.SimTransport
+    pull_on_register).  Same oracle.
+  * time passes during the session: in 30 % of the runs the idle timeouts of server (SMTP.timeout) and client
+    (SMTPClient.timeout) are tape-chosen and run on the simulated clock, and before every network event a tape-chosen amount
+    of simulated time passes (slow link, throttled sender), cut so that no peer is ever idle for 3/4 of its timeout: "idle" is
+    judged on the wire and the file (no complete line delivered to the peer; for the client also: no piece of the body read
+    from its file), not by asking the protocols.  A body may thus take several times the idle timeout as a whole while lines
+    keep arriving.  Same oracle: the transfer ends only at the client's terminator - a peer that gives up in the middle of a
+    body that is still flowing shows up as a reply before the terminator / an error reply / truncated body / missing 250.
 """
 import io
 import traceback
@@ -61,16 +75,25 @@ RUN_WALL_LIMIT_S = 120   # runs take milliseconds; generous so that an overloade
 COMPONENTS = {"real": ["twisted.mail.smtp.SMTPClient (transformChunk, finishedFileTransfer, smtpState_*)",
                        "twisted.mail.smtp.SMTP / ESMTP (state_COMMAND, dataLineReceived)",
                        "twisted.protocols.basic.FileSender", "twisted.protocols.basic.LineReceiver/LineOnlyReceiver"],
-              "stub": ["TCP transport, delivery segmentation and pull-producer scheduling (detsim.net.Link)",
+              "stub": ["TCP transport, delivery segmentation and pull-producer scheduling (detsim.net.Link; first pull optionally from inside registerProducer)",
+                       "reactor time for both peers' idle timeouts (detsim.clock.SimClock via TimeoutMixin.callLater)",
                        "IMessageDelivery/IMessageSMTP recorder (optionally refusing data at a tape-chosen line)",
                        "message file (BytesIO recording EOF, at most its session's chunk size per read)"]}
 RULE = ("run = one SMTP session of 1-2 messages, each body 1-12 LF-terminated lines drawn from a dot-rich grammar (with command-looking lines), "
         "read-chunk size drawn from {16384,1,2,3,4,5,7,8,16,64}, all network events tape-chosen; per DATA transaction p=0.15 one recipient's message "
         "object refuses the data (SMTPServerError) at a tape-chosen line; in 30 % of the runs a second independent client/server pair with its own "
         "bodies/chunk size runs concurrently, the tape choosing before each event which pair moves (start offset 0-100 events); "
+        "per session p=0.5 the client's transport pulls the first body chunk from inside registerProducer(); in 30 % of the runs server/client idle "
+        "timeouts are drawn from {600,30,8} / {none,600,20} s and before each event 0, 1/16, 1/4 or 1/2 of the smallest timeout passes on the simulated "
+        "clock, cut so that no peer is idle (no complete line delivered to it, no body piece read) for 3/4 of its timeout; "
         "non-trivial = some body line starts with '.' and (a body was read in more than one chunk or the wire was segmented)")
 ASSUMPTIONS = ["bodies are non-empty sequences of LF-terminated lines without CR, each shorter than the server's line limit (<= 300 bytes here)",
-               "server delivery accepts every sender and recipient; no timeouts fire (timers are on the simulated clock and never advanced)",
+               "server delivery accepts every sender and recipient",
+               "time: idle timeouts are on the simulated clock; time passes only between network events and never so much that a peer has gone "
+               "3/4 of its idle timeout without a complete line reaching it (client: or without a non-empty read of the message file, the documented "
+               "'progress is being made sending the message body'); under that pacing no timeout may end a session, however long a body takes as a "
+               "whole (a partial line trickling in does not count as activity, so nothing is demanded of a peer that times such a sender out)",
+               "a transport may ask a pull producer for data from inside registerProducer() (IConsumer allows it; FileDescriptor does it)",
                "a message object refuses data only by raising SMTPServerError from lineReceived on a body-stage line (never on the Received header, "
                "which is handed over before the 354); for a refused transaction the oracle demands: commands executed == commands sent, no reply before "
                "the client's terminator, the refusal code as the only error reply and as the client's result, message objects saw a prefix of the body and "
@@ -126,6 +149,7 @@ class RecFile(io.BytesIO):
     """Message file: records EOF; hands out at most `size` bytes per read (a file may always return fewer bytes than asked for)."""
     eof = False
     size = None
+    progress = 0       # reads that returned data (the client is making progress sending the body)
 
     def read(self, n=-1):
         if self.size is not None and (n is None or n < 0 or n > self.size):
@@ -133,6 +157,8 @@ class RecFile(io.BytesIO):
         d = io.BytesIO.read(self, n)
         if not d:
             self.eof = True
+        else:
+            self.progress += 1
         return d
 
 
@@ -234,6 +260,7 @@ class Client(smtp.SMTPClient):
         self.terminators = 0
         self.in_data = False
         self.data_span = []    # [start, end) of each DATA section in transport.written
+        self.data_time = []    # [simulated time at getMailData, at the terminator] of each DATA section
 
     def sendLine(self, line):
         if self.in_data and line in (b".", b"\r\n."):
@@ -241,6 +268,7 @@ class Client(smtp.SMTPClient):
             self.in_data = False
             r = smtp.SMTPClient.sendLine(self, line)
             self.data_span[-1][1] = len(self.transport.written)
+            self.data_time[-1][1] = self.h.sim.clock.seconds()
             return r
         else:
             self.cmds.append(line)
@@ -260,6 +288,7 @@ class Client(smtp.SMTPClient):
         self.files.append(f)
         self.in_data = True
         self.data_span.append([len(self.transport.written), None])
+        self.data_time.append([self.h.sim.clock.seconds(), None])
         return f
 
     def sentMail(self, code, resp, numOk, addresses, log):
@@ -337,17 +366,60 @@ def gen_refusals(sim, messages, hdr):
     return plan
 
 
+SERVER_TIMEOUTS = [600, 30, 8]      # seconds; SMTP.timeout defaults to 600
+CLIENT_TIMEOUTS = [None, 600, 20]   # SMTPClient.timeout defaults to None (no timeout checking)
+PACE = [0, 1 / 16, 1 / 4, 1 / 2]    # time passing before a network event, as a share of the smallest idle timeout in the run
+IDLE_FRAC = 0.75                    # no peer is ever left without a complete line / a body read for more than this share of its timeout
+
+
+def pass_time(sim, sessions, live):
+    """Simulated time passes between two network events: a slow link, a throttled sender.  The amount is tape-chosen and then cut
+    so that no peer of a live session stays idle (see Session._note_activity) for IDLE_FRAC of its idle timeout or more: the
+    connection is never idle from any peer's point of view, however long a whole body takes."""
+    dt = sim.draw_choice(PACE, "pace")
+    if not dt:
+        return
+    dt *= min(t for s in sessions for t in s.timeouts if t is not None)
+    slack = min(x for x in (s.idle_slack(IDLE_FRAC) for s in live) if x is not None)
+    if slack < dt:
+        sim.probe("pace_cut_to_stay_below_idle_timeout")
+        dt = slack
+    if dt <= 0:
+        return
+    try:
+        sim.clock.advance(dt)
+    except Exception as e:      # a timer of the code under test raised: classified with the session's own exceptions
+        tb = traceback.extract_tb(e.__traceback__)[-1]
+        live[0].raised = (type(e).__name__, "%s: %s (in a timed call, at %s:%s %s)" % (type(e).__name__, str(e)[:200], tb.filename.split("/")[-1], tb.lineno, tb.name))
+        sim.event("timer", "raised", type(e).__name__)
+    sim.sim_time += dt
+    sim.fault("time_passes_between_events")
+    if any(s.client.in_data for s in live):
+        sim.probe("time_passes_inside_body")
+
+
 class Session:
     """One SMTPClient <-> SMTP/ESMTP pair on its own link, with its own bodies, read-chunk size, refusal plan, recorders and verdicts."""
 
-    def __init__(self, sim, name, chunk, esmtp, hdr, messages, refuse):
+    def __init__(self, sim, name, chunk, esmtp, hdr, messages, refuse, sync_pull=False, timeouts=None):
         self.sim, self.name = sim, name
+        self.sync_pull, self.timeouts = sync_pull, timeouts
         self.chunk, self.esmtp, self.hdr, self.messages, self.refuse = chunk, esmtp, hdr, messages, refuse
         self.msgs, self.server_cmds, self.codes, self.code_ctx = [], [], [], []
         self.data_count = 0
         self.client = Client(self, [(m[0], m[1], m[2]) for m in messages])
         self.server = make_server(smtp.ESMTP if esmtp else smtp.SMTP, self, hdr)
         self.link = net.Link(sim, self.client, self.server)
+        # the client's transport asks a pull producer for its first chunk from inside registerProducer() (as abstract.FileDescriptor
+        # and protocols.loopback do) or leaves every pull to the scheduler (as in-memory test transports do)
+        self.link.a.pull_on_register = bool(sync_pull)
+        # idle timeouts (server, client) on the simulated clock; None = as before (server default, never reached; client none)
+        self.client.callLater = lambda period, func: sim.clock.callLater(period, func)
+        if timeouts is not None:
+            self.server.timeout, self.client.timeout = timeouts
+        self.seen = {"A": [0, 0], "B": [0, 0]}    # per side: [bytes of link.delivered examined, complete lines among them]
+        self.reads = 0
+        self.last_active = {"A": 0.0, "B": 0.0}
         self.cap = 400 + 14 * sum(len(m[2]) for m in messages)
         self.steps = 0
         self.started = False
@@ -369,12 +441,47 @@ class Session:
 
     def connect(self):
         self.started = True
+        self.last_active = {"A": self.sim.clock.seconds(), "B": self.sim.clock.seconds()}
         self._guarded(lambda: self.link.connect(a_first=False))
 
     def step(self):
         self.steps += 1
         if self._guarded(self.link.step) is False:
             self.finished = True
+        if self.timeouts is not None:
+            self._note_activity()
+
+    def _note_activity(self):
+        """A peer is active (not idle) when a complete line reaches it; the client also when it reads a piece of the body from its
+        file (SMTPClient.transformChunk: "as long as progress is being made sending the message body, the client will not time
+        out").  Taken from the wire and the file, not from the protocols."""
+        now = self.sim.clock.seconds()
+        for side in ("A", "B"):
+            buf = self.link.delivered[side]
+            seen = self.seen[side]
+            if len(buf) > seen[0]:
+                n = buf.count(b"\n", seen[0])
+                seen[0] = len(buf)
+                if n:
+                    seen[1] += n
+                    self.last_active[side] = now
+        reads = sum(f.progress for f in self.client.files)
+        if reads != self.reads:
+            self.reads = reads
+            self.last_active["A"] = now
+
+    def idle_slack(self, frac):
+        """How much simulated time may pass now with both peers staying below `frac` of their idle timeouts."""
+        if self.timeouts is None:
+            return None
+        now = self.sim.clock.seconds()
+        slack = None
+        for side, t in (("B", self.timeouts[0]), ("A", self.timeouts[1])):
+            if t is None:
+                continue
+            room = frac * t - (now - self.last_active[side])
+            slack = room if slack is None else min(slack, room)
+        return slack
 
     # ---- oracle (recorded history, fixed order) --------------------------------
     def judge(self):
@@ -447,6 +554,12 @@ class Session:
         sim.check("terminators", client.terminators == nmsgs, "client", "terminators sent %d" % client.terminators)
         sim.check("closed", link.a.disconnected and link.b.disconnected, "link", "a=%r b=%r" % (link.a.disconnected, link.b.disconnected))
 
+        if self.timeouts is not None:
+            for span in client.data_time:
+                if span[1] is not None and span[1] - span[0] > self.timeouts[0]:
+                    sim.probe("body_took_longer_than_server_idle_timeout")
+                if span[1] is not None and self.timeouts[1] is not None and span[1] - span[0] > self.timeouts[1]:
+                    sim.probe("body_took_longer_than_client_idle_timeout")
         for k, r in enumerate(refuse):
             if r:
                 _, exp = expected_lines(messages[k][3], hdr)
@@ -470,7 +583,12 @@ def run(sim):
     refuse = gen_refusals(sim, messages, hdr)
     sim.config = {"chunk": chunk, "avoid_boundary_dots": avoid, "esmtp": esmtp, "rcvd": bool(hdr), "nmsgs": nmsgs,
                   "refuse": refuse, "pairs": 1}
-    sessions = [Session(sim, "P1", chunk, esmtp, hdr, messages, refuse)]
+    # round 5: who asks the body producer for its first chunk, and simulated time passing during the session
+    sync_pull = sim.draw_bool(0.5, "pull_on_register")
+    timed = sim.draw_bool(0.3, "timed")
+    timeouts = (sim.draw_choice(SERVER_TIMEOUTS, "server_timeout"), sim.draw_choice(CLIENT_TIMEOUTS, "client_timeout")) if timed else None
+    sim.config.update({"pull_on_register": sync_pull, "timeouts": timeouts})
+    sessions = [Session(sim, "P1", chunk, esmtp, hdr, messages, refuse, sync_pull, timeouts)]
     # a second, independent client/server pair whose session runs at the same time (its events alternate with the first one's)
     delay2 = 0
     if sim.draw_bool(0.3, "second_pair"):
@@ -482,7 +600,10 @@ def run(sim):
         delay2 = sim.draw_choice([0, 3, 10, 30, 100], "delay2")
         sim.config.update({"pairs": 2, "chunk2": chunk2, "esmtp2": esmtp2, "rcvd2": bool(hdr2), "nmsgs2": len(messages2),
                            "refuse2": refuse2, "delay2": delay2})
-        sessions.append(Session(sim, "P2", chunk2, esmtp2, hdr2, messages2, refuse2))
+        sync_pull2 = sim.draw_bool(0.5, "pull_on_register2")
+        timeouts2 = (sim.draw_choice(SERVER_TIMEOUTS, "server_timeout2"), sim.draw_choice(CLIENT_TIMEOUTS, "client_timeout2")) if timed else None
+        sim.config.update({"pull_on_register2": sync_pull2, "timeouts2": timeouts2})
+        sessions.append(Session(sim, "P2", chunk2, esmtp2, hdr2, messages2, refuse2, sync_pull2, timeouts2))
 
     old_chunk = basic.FileSender.CHUNK_SIZE
     basic.FileSender.CHUNK_SIZE = max(s.chunk for s in sessions)    # each session's file hands out at most its own chunk size per read
@@ -497,6 +618,8 @@ def run(sim):
             live = [s for s in sessions if s.live]
             if not live:
                 break
+            if timed:
+                pass_time(sim, sessions, live)
             s = live[0] if len(live) == 1 else sim.draw_choice(live, "pair")
             s.step()
             n += 1
@@ -539,4 +662,10 @@ MUTANTS = [
     "smtp.py SMTP.do_DATA: datafailed of an earlier refused message not cleared -> caught (body-lines-equal, no-error-replies)",
     "smtp.py SMTPClient: line-start flag of transformChunk kept in a helper object shared by all instances -> caught (leading-dot-not-stuffed, body-lines-equal; needs overlapping sessions)",
     "smtp.py SMTPClient.transformChunk: line-start flag written to the class instead of the instance -> caught (body-lines-equal; needs overlapping sessions)",
+    "round 5, first pull inside registerProducer / time passing between events:",
+    "smtp.py SMTPClient.smtpState_data: line-start flag initialised after beginFileTransfer instead of before -> caught (body-lines-equal, body-lines-prefix; needs pull_on_register)",
+    "basic.py FileSender.beginFileTransfer: transform stored after registerProducer -> caught (protocol-raised:AttributeError; needs pull_on_register)",
+    "smtp.py SMTP.lineReceived: idle timeout re-armed in COMMAND mode only -> caught (body-lines-equal, all-messages-accepted, commands-are-clients; needs time passing inside a body)",
+    "smtp.py SMTPClient.transformChunk: resetTimeout() removed -> caught (all-messages-accepted, commands-shape; needs a client timeout and time passing inside a body)",
+    "smtp.py SMTPClient.lineReceived: resetTimeout() removed -> caught (all-messages-accepted; needs a client timeout and time passing)",
 ]
